@@ -42,7 +42,8 @@ ANCHORS = ["openfisca_core/simulations/simulation_builder.py",
 RULE = ("situation documents for two custom systems (person + household with parents max 2 / children; "
         "second system adds clubs with sub-roles): fully specified, single-entity short form and "
         "variables-only shapes, 1-5 persons, 0-3 groups per kind with persons left out, person and group "
-        "ids overlapping, every value type x definition period (month, year, day, week, eternity), "
+        "ids overlapping, every value type x definition period (month, year, day, week, weekday, eternity; weeks at "
+        "ISO-year boundaries), an enumeration of 150 members (values, defaults and axis values at indices >= 128), "
         "divide / dispatch set-input rules with nested longer periods, several spellings of every period "
         "key; 'spelling' cases build the same abstract document under two random spellings; 'axes' cases "
         "(parallel, perpendicular, spelled axis periods) come with the expanded copies they stand for; "
@@ -82,14 +83,21 @@ class Color(Enum):
 
 
 ENUM_NAMES = ["red", "green", "blue"]
+BIG_NAMES = [f"d{i:03d}" for i in range(150)]       # more members than one signed byte can index
+District = Enum("District", [(n_, n_) for n_ in BIG_NAMES])
+ENUMS = {"color": (Color, ENUM_NAMES, "green"), "big": (District, BIG_NAMES, "d140")}
 PYTYPE = {"int": int, "float": float, "bool": bool, "enum": Enum, "date": datetime.date, "str": str}
 TCOQ = {"int": "TInt", "float": "TFloat", "bool": "TBool", "enum": "TEnum", "date": "TDate", "str": "TStr"}
 RULES = {"none": None, "divide": set_input_divide_by_period, "dispatch": set_input_dispatch_by_period}
 RCOQ = {"none": "RNone", "divide": "RDivide", "dispatch": "RDispatch"}
 
 
-def V(name, ent, typ, unit, rule="none", end=None, default=None):
-    return dict(name=name, ent=ent, type=typ, unit=unit, rule=rule, end=end, default=default)
+def V(name, ent, typ, unit, rule="none", end=None, default=None, enum="color"):
+    return dict(name=name, ent=ent, type=typ, unit=unit, rule=rule, end=end, default=default, enum=enum)
+
+
+def enum_names(v):
+    return ENUMS[v["enum"]][1]
 
 
 VARS_A = [
@@ -112,6 +120,9 @@ VARS_A = [
     V("p_end_d", "person", "float", "day", end=[2018, 12, 31]),
     V("p_end_y", "person", "int", "year", "divide", end=[2019, 1, 1]),
     V("p_int_e", "person", "int", "eternity"),
+    V("p_big_e", "person", "enum", "eternity", enum="big"),
+    V("p_big_m", "person", "enum", "month", enum="big", default="d128"),
+    V("p_int_wd", "person", "int", "weekday"),
     V("h_rent", "household", "int", "month"),
     V("h_size", "household", "float", "year", "divide"),
     V("h_flag", "household", "bool", "month", default=True),
@@ -120,6 +131,7 @@ VARS_A = [
     V("h_name", "household", "str", "year"),
     V("h_end_m", "household", "int", "month", end=[2018, 12, 15]),
     V("h_end_d", "household", "bool", "day", "dispatch", end=[2019, 2, 28]),
+    V("h_big_y", "household", "enum", "year", enum="big", default="d129"),
 ]
 VARS_B = VARS_A + [
     V("c_fee", "club", "int", "year"),
@@ -142,7 +154,7 @@ def type_default(v):
     if t == "bool":
         return False if d is None else d
     if t == "enum":
-        return ENUM_NAMES.index("green")
+        return enum_names(v).index(d if d is not None else ENUMS[v["enum"]][2])
     if t == "date":
         return 0 if d is None else datetime.date(*d).toordinal() - EPOCH
     return "" if d is None else d
@@ -167,8 +179,9 @@ class System:
             if v["end"]:
                 attrs["end"] = "%04d-%02d-%02d" % tuple(v["end"])
             if v["type"] == "enum":
-                attrs["possible_values"] = Color
-                attrs["default_value"] = Color.green
+                cls_, names_, dflt_ = ENUMS[v["enum"]]
+                attrs["possible_values"] = cls_
+                attrs["default_value"] = cls_[v["default"] if v["default"] is not None else dflt_]
             elif v["default"] is not None:
                 attrs["default_value"] = datetime.date(*v["default"]) if v["type"] == "date" else v["default"]
             self.tbs.add_variable(type(v["name"], (Variable,), attrs))
@@ -208,7 +221,7 @@ class System:
 
         def cvar(v):
             end = "None" if not v["end"] else "(Some (%s, %s, %s))" % tuple(cz(x) for x in v["end"])
-            enum = clist([cstr(n) for n in ENUM_NAMES]) if v["type"] == "enum" else "[]"
+            enum = clist([cstr(n) for n in enum_names(v)]) if v["type"] == "enum" else "[]"
             return (f"(mkVariable {cstr(v['name'])} {cstr(v['ent'])} {TCOQ[v['type']]} "
                     f"{UCOQ[UNAME.index(v['unit'])]} {RCOQ[v['rule']]} {end} {cdefault(v)} {enum})")
 
@@ -443,7 +456,7 @@ def expected_cell(v, value):
     if t == "bool":
         return None
     if t == "enum":
-        return ENUM_NAMES.index(value) if isinstance(value, str) and value in ENUM_NAMES else None
+        return enum_names(v).index(value) if isinstance(value, str) and value in enum_names(v) else None
     if t == "date":
         if isinstance(value, str) and RE_YMD.match(value):
             try:
@@ -769,6 +782,8 @@ class P:
             return [ymd, f"day:{ymd}", f"day:{ymd}:1"]
         if u == "day":
             return [f"day:{ymd}:{n}", f"day:{ymd}:+{n}"]
+        if u == "weekday":
+            return [f"weekday:{ymd}", f"weekday:{ymd}:1"] if n == 1 else [f"weekday:{ymd}:{n}"]
         if u == "week":     # (y, m, d) is a Monday
             dd = datetime.date(y, m, d)
             alt = dd + datetime.timedelta(days=2 + self.tag % 4)
@@ -838,14 +853,25 @@ def gen_value(rng, v, divisible=False):
     if t == "bool":
         return rng.choice([True, False])
     if t == "enum":
-        return rng.choice(ENUM_NAMES)
+        names = enum_names(v)
+        if len(names) > 128 and rng.random() < 0.7:
+            return names[rng.choice([126, 127, 128, 129, 130, 149, rng.randint(128, 149)])]
+        return rng.choice(names)
     if t == "date":
         return datetime.date.fromordinal(rng.randint(datetime.date(1900, 1, 1).toordinal(),
                                                      datetime.date(2030, 12, 31).toordinal())).isoformat()
     return rng.choice(WORDS)
 
 
+ISO_BOUNDARY_MONDAYS = [datetime.date(2013, 12, 30), datetime.date(2014, 12, 29), datetime.date(2018, 12, 31),
+                        datetime.date(2019, 12, 30), datetime.date(2015, 12, 28), datetime.date(2020, 12, 28)]
+ISO_BOUNDARY_DAYS = [datetime.date(2016, 1, 1), datetime.date(2021, 1, 3), datetime.date(2013, 12, 31),
+                     datetime.date(2018, 12, 31), datetime.date(2019, 12, 30), datetime.date(2017, 1, 1)]
+
+
 def monday(rng):
+    if rng.random() < 0.35:
+        return rng.choice(ISO_BOUNDARY_MONDAYS)     # the ISO year of the week is not the year of its Monday
     d = datetime.date(2018, 1, 1) + datetime.timedelta(weeks=rng.randint(0, 120))
     return d
 
@@ -916,6 +942,13 @@ def gen_plan(rng, v):
         for i in range(rng.randint(1, 3)):
             d = monday(rng)
             out.append(P("week", d.year, d.month, d.day, tag=rng.randint(0, 3)))
+        return out
+    if u == "weekday":
+        out = []
+        for i in range(rng.randint(1, 3)):
+            d = rng.choice(ISO_BOUNDARY_DAYS) if rng.random() < 0.5 else \
+                datetime.date(2018, 1, 1) + datetime.timedelta(days=rng.randint(0, 800))
+            out.append(P("weekday", d.year, d.month, d.day))
         return out
     raise ValueError(u)
 
@@ -1048,6 +1081,9 @@ def gen_axis(rng, S, v, count, counts, idx_max):
     t = v["type"]
     if t == "bool":
         mn, mx = rng.choice([(0, 1), (1, 0), (0, 0)])
+    elif t == "enum" and v["enum"] == "big":
+        mn = rng.choice([120, 126, 127, 128, 140])
+        mx = mn + rng.choice([0, 1, 2, 3]) * max(count - 1, 1) if count > 1 else mn
     elif t == "enum":
         mn, mx = (0, 2) if count in (2, 3) else (rng.randint(0, 2),) * 2
         if count == 2 and rng.random() < 0.5:
@@ -1077,7 +1113,10 @@ def to_json_number(S, vn, q):
         return float(q)
     if v["type"] == "bool":
         return q != 0
-    return int(q) if q >= 0 else -int(-q)
+    k = int(q) if q >= 0 else -int(-q)
+    if v["type"] == "enum" and 0 <= k < len(enum_names(v)):
+        return enum_names(v)[k]          # the copy names the member that the axis value stands for
+    return k
 
 
 def expand_copies(S, doc, axes_json):
@@ -1197,6 +1236,8 @@ def mismatch_key(rng, v):
         return rng.choice(["ETERNITY", "eternity"])
     if u == "week":
         return rng.choice(["2018", "2018-01", "2018-01-01", "ETERNITY", "week:2018-01-01:2"])
+    if u == "weekday":
+        return rng.choice(["2018", "2018-01", "ETERNITY", "weekday:2018-01-01:2", "week:2018-01-01"])
     return None
 
 
@@ -1277,7 +1318,8 @@ def mutate_entities(rng, S, doc, cls):
                "unknown_enum": rng.choice(["nope", "Red", "RED", "yellow", "r", ""]),
                "impossible_date": rng.choice(BAD_DATES)}[cls]
         key = P(*{"month": ("month", 2018, 3), "year": ("year", 2018), "day": ("day", 2018, 3, 4),
-                  "week": ("week", 2018, 1, 1), "eternity": ("eternity",)}[v["unit"]])
+                  "week": ("week", 2018, 1, 1), "weekday": ("weekday", 2018, 1, 3),
+                  "eternity": ("eternity",)}[v["unit"]])
         cur = f.get(v["name"])
         if not isinstance(cur, dict):
             cur = {}
@@ -1337,7 +1379,8 @@ def mutate_vars(rng, S, doc, cls):
         if cls == "text_for_number" and isinstance(arr(bad), list):
             return None       # arrays of texts for numbers are outside the modelled language
         key = P(*{"month": ("month", 2018, 3), "year": ("year", 2018), "day": ("day", 2018, 3, 4),
-                  "week": ("week", 2018, 1, 1), "eternity": ("eternity",)}[v["unit"]])
+                  "week": ("week", 2018, 1, 1), "weekday": ("weekday", 2018, 1, 3),
+                  "eternity": ("eternity",)}[v["unit"]])
         d[v["name"]] = {key.spellings()[0]: arr(bad)}
         return d
     if cls == "unparsable_period":
@@ -1400,6 +1443,22 @@ def fixed_cases():
                                                  "h_end_m": {"2018-12": 7, "2019-01": 8}}}}])
     case("valid", "short", [{"persons": {"a": ends}, "household": {"parents": ["a"], "h_end_m": {"2018-12": 7}}}])
     case("valid", "vars", [dict(ends)])
+    # an enumeration with more members than a signed byte can index: declared values, defaults,
+    # the default of the group made for a person left out, an axis
+    case("valid", "full", [{"persons": {"a": {"p_big_e": {"ETERNITY": "d128"}, "p_big_m": {"2018-01": "d127"}},
+                                        "b": {"p_big_e": {"eternity": "d149"}, "p_big_m": {"2018-02": "d129"}},
+                                        "c": {}},
+                            "households": {"h": {"parents": ["a", "b"], "h_big_y": {"2018": "d130"}}}}])
+    bigax = {"persons": {"a": {"p_big_m": {"2018-01": "d002"}}, "b": {}},
+             "households": {"h": {"parents": ["a", "b"]}},
+             "axes": [[{"count": 3, "name": "p_big_m", "min": 127, "max": 129, "period": "2018-01", "index": 1}]]}
+    case("axes", "full", [bigax] + expand_copies(SYSTEMS[A], bigax, bigax["axes"]), meta={"ordered": True})
+    # weeks and week days whose ISO year is not the calendar year of their first day
+    case("spelling", "full", [
+        {"persons": {"a": {"p_int_w": {"week:2018-12-31": 5, "week:2014-12-29": 6},
+                           "p_int_wd": {"weekday:2016-01-01": 7, "weekday:2021-01-03": 8}}}},
+        {"persons": {"a": {"p_int_w": {"week:2019-01-02:1": 5, "week:2015-01-01": 6},
+                           "p_int_wd": {"weekday:2016-01-01:1": 7, "weekday:2021-01-03:+1": 8}}}}])
     # axes with a spelled period, in the short form
     big = {"persons": {"a": {"p_int_m": {"2018-01": 3}}, "b": {}, "c": {}},
            "household": {"parents": ["a"], "children": ["b", "c"]},
